@@ -258,7 +258,12 @@ class CGraph:
 
         utpm_x_list = []
         for xi in x_list:
-            element = numpy.asarray(xi).reshape((1,1) + numpy.shape(xi))
+            element = numpy.asarray(xi)
+            if element.dtype.kind in 'biu':
+                # an integer point: the arithmetic (and the gradient) must
+                # not be carried out in integers, cf. the other drivers
+                element = element.astype(float)
+            element = element.reshape((1,1) + numpy.shape(xi))
             utpm_x_list.append(algopy.UTPM(element))
 
         self.pushforward(utpm_x_list)
